@@ -11,6 +11,8 @@ from sim import island
 
 def get_spec(pid):
     island.quiet_logging()
+    import warnings
+    warnings.simplefilter('ignore')
     if pid in ('C15', 'C16'):
         from worlds import connpool_spec
         return connpool_spec.SPECS[pid]
@@ -65,6 +67,7 @@ def main(argv):
     ap.add_argument('--stratum')
     ap.add_argument('--mutant')
     ap.add_argument('--trace', action='store_true')
+    ap.add_argument('--exemplars')
     a = ap.parse_args(argv)
     if os.environ.get('VERIF_TIER') in ('quick', 'thorough'):
         a.tier = os.environ['VERIF_TIER']
@@ -135,6 +138,20 @@ def main(argv):
             print('     ', v[4]['detail'][:400])
         for he in tot['harness_errors'][:5]:
             print('HARNESS', he)
+        if a.exemplars:
+            seen = set()
+            for (i, sd, stratum, used, v) in tot['violations']:
+                k = runner.vkey(v)
+                if k in seen:
+                    continue
+                seen.add(k)
+                mini, natt = runner.minimise(spec, used, stratum, v, mutant=mutant, max_attempts=600)
+                res, _ = runner.run_values(spec, mini, stratum, mutant=mutant, record=True, labels=True)
+                v2 = next(x for x in res['violations'] if runner.vkey(x) == k)
+                path = os.path.join(a.exemplars, f'{a.pid}-{v["kind"]}-{runner.hash_str(v["signature"] + stratum) % 10**8:08d}.json')
+                runner.write_replay(spec, path, mini, stratum, v2, seed=sd, index=i, res=res,
+                                    shrink_attempts=natt, original_len=len(used), mutant=mutant)
+                print('exemplar', path, k, 'tape', len(mini))
         return 0
 
     if a.tier not in ('quick', 'thorough'):
